@@ -531,4 +531,7 @@ pub fn c06(a: &Args, rep: &mut Report) {
         with_random_mask("C06mask", a, k, &mut c, 5);
         one_c06("C06", &c, rep);
     });
+    // zoom inputs are judged by their own monitor only (local reference): the translation / replication comparisons above
+    // perturb the generators by u W, which the box-relative tolerance model does not relate to cells of 1e-8 W
+    zoom_cells(a, rep, "C06", false, 400, 6000, |c, rep| crate::p_zoom::one_zoom("C06", c, rep));
 }
